@@ -1,6 +1,6 @@
 (* C38/Run.v — two-phase line driver.  Input:  <case> TAB <observation>   (harness/hfail mode X, see src/fault.rs)
      case        X <seed> <p|b> <fault> <rchunk> <wchunk> <phase>/<phase>/...
-     observation lens=..;costs=..;tasks=..;trace=..;rd=<bytes read>;wr=<sendmsg calls>
+     observation lens=..;costs=..;tasks=..;trace=..;rd=<bytes read>;wr=<sendmsg calls>;fp=<phase of the failure | ->
    model field: OK when replaying the recorded poll order (`K<released>` = let the reader run, `P<i>` = poll task i) through
                 Model.step ends in exactly the observed results, bytes read and sendmsg calls; otherwise what the model predicts.
    spec  field: OK when the observation satisfies the property (Spec.task_ok for every task), `-` when the transport did
@@ -397,10 +397,13 @@ Definition run_case (line : bytes) : outp :=
                   let descs := describe phases ((0, 0) :: rel) busmode 0 in
                   let tvals := map value_of (split_on ","%byte tasks_s) in
                   let obsl := map (fun p => parse_tobs (fst (fst p)) (snd p)) (combine descs tvals) in
-                  let aborted_at := first_index (fun v => lbeq v (B "io:aborted") || lbeq v (B "-:failed:io:aborted")) tvals 0 in
+                  (* the phase during which the transport failed.  Read fault: the phase that released byte fp.  Write fault: the
+                     phase in which the first sendmsg failed, as recorded by the scripted socket (fp=..).  It is NOT the phase in
+                     which the first task that saw the write error was started: a task started early may send late (a subscription
+                     waiting for the subscriptions mutex sends its AddMatch only when the holder has failed) *)
                   let fault_phase :=
                     match wb with
-                    | Some _ => match aborted_at with Some i => Some (snd (nth i descs (DEmit, 0))) | None => None end
+                    | Some _ => match field (B "fp") fs with Some t => nat_of_dec t | None => None end
                     | None => if Nat.eqb rdv fp then first_index (fun p => fp <=? snd p) rel 0 else None
                     end in
                   let spec :=
